@@ -490,3 +490,284 @@ Section Runs.
     apply exec_runs_ok. apply (get_runs_sound fuel sector count runs Hs Hruns).
   Qed.
 End Runs.
+
+(* ====================================================================== *)
+(* Bit-level facts about the masks taken from the source (Gen/*.v).       *)
+(* ====================================================================== *)
+Lemma land_shifted_ones e s w : 0 <= s -> 0 <= w ->
+  Z.land e (Z.shiftl (Z.ones w) s) = ((e / 2 ^ s) mod 2 ^ w) * 2 ^ s.
+Proof.
+  intros Hs Hw. rewrite <- Z.shiftl_mul_pow2, <- Z.land_ones, <- Z.shiftr_div_pow2 by lia.
+  apply Z.bits_inj'. intros i Hi. rewrite Z.land_spec.
+  destruct (Z.lt_ge_cases i s) as [Hlt|Hge].
+  - rewrite !Z.shiftl_spec_low by lia. apply andb_false_r.
+  - rewrite !Z.shiftl_spec by lia. rewrite Z.land_spec, Z.shiftr_spec by lia.
+    replace (i - s + s) with i by lia. reflexivity.
+Qed.
+
+Lemma lor_disjoint a b n : 0 <= n -> 0 <= a < 2 ^ n -> Z.lor a (Z.shiftl b n) = a + Z.shiftl b n.
+Proof.
+  intros Hn Ha.
+  assert (Hland : Z.land a (Z.shiftl b n) = 0).
+  { apply Z.bits_inj'. intros i Hi. rewrite Z.land_spec, Z.bits_0.
+    destruct (Z.lt_ge_cases i n) as [Hlt|Hge].
+    - rewrite Z.shiftl_spec_low by lia. apply andb_false_r.
+    - rewrite <- (Z.mod_small a (2 ^ n)) by lia. rewrite Z.mod_pow2_bits_high by lia. reflexivity. }
+  rewrite (Z.add_nocarry_lxor _ _ Hland). symmetry. apply Z.lxor_lor. exact Hland.
+Qed.
+
+Definition u64 (e : Z) : Prop := 0 <= e < 2 ^ 64.
+
+(* the grain-type mask selects the top nibble *)
+Lemma gte_type_mask e : u64 e ->
+  Z.land e C.vmdk_SESPARSE_GRAIN_TYPE_MASK = (e / 2 ^ 60) * 2 ^ 60 /\ 0 <= e / 2 ^ 60 < 16.
+Proof.
+  intros [H0 H1].
+  assert (Hq : 0 <= e / 2 ^ 60 < 16).
+  { split; [apply Z.div_pos; lia|]. apply Z.div_lt_upper_bound; [lia|]. exact H1. }
+  split; [|exact Hq].
+  change C.vmdk_SESPARSE_GRAIN_TYPE_MASK with (Z.shiftl (Z.ones 4) 60).
+  rewrite land_shifted_ones by lia. rewrite Z.mod_small; [reflexivity|]. change (2 ^ 4) with 16. exact Hq.
+Qed.
+
+(* the two literal masks of _lookup_grain assemble the 60-bit cluster number *)
+Lemma se_cluster_spec e : 0 <= e ->
+  se_cluster e = (e / 2 ^ 48) mod 2 ^ 12 + (e mod 2 ^ 48) * 2 ^ 12.
+Proof.
+  intros H0. unfold se_cluster.
+  change T.vmdk_gte_hi_mask with (Z.shiftl (Z.ones 12) 48).
+  change T.vmdk_gte_lo_mask with (Z.shiftl (Z.ones 48) 0).
+  change T.vmdk_gte_hi_shift with 48. change T.vmdk_gte_lo_shift with 12.
+  rewrite !land_shifted_ones by lia.
+  rewrite Z.shiftr_div_pow2 by lia. rewrite Z.div_mul by lia.
+  change (2 ^ 0) with 1. rewrite Z.div_1_r, Z.mul_1_r.
+  rewrite lor_disjoint; [rewrite Z.shiftl_mul_pow2 by lia; reflexivity|lia|].
+  apply Z.mod_pos_bound. lia.
+Qed.
+
+(* the grain-directory check of _lookup_grain_table: top 32 bits = 0x10000000; index = low 32 bits *)
+Lemma gde_check_spec e : u64 e ->
+  (Z.land e T.vmdk_gde_check_mask =? T.vmdk_gde_check_value) = (e / 2 ^ 32 =? 2 ^ 28) /\
+  Z.land e T.vmdk_gde_index_mask = e mod 2 ^ 32.
+Proof.
+  intros [H0 H1].
+  assert (Hq : 0 <= e / 2 ^ 32 < 2 ^ 32).
+  { split; [apply Z.div_pos; lia|]. apply Z.div_lt_upper_bound; [lia|]. exact H1. }
+  split.
+  - change T.vmdk_gde_check_mask with (Z.shiftl (Z.ones 32) 32).
+    change T.vmdk_gde_check_value with (2 ^ 28 * 2 ^ 32).
+    rewrite land_shifted_ones by lia. rewrite Z.mod_small by exact Hq.
+    destruct (Z.eqb_spec (e / 2 ^ 32) (2 ^ 28)) as [Heq|Hne].
+    + rewrite Heq. apply Z.eqb_refl.
+    + apply Z.eqb_neq. intros Hc. apply Hne. lia.
+  - change T.vmdk_gde_index_mask with (Z.shiftl (Z.ones 32) 0).
+    rewrite land_shifted_ones by lia. change (2 ^ 0) with 1. rewrite Z.div_1_r, Z.mul_1_r. reflexivity.
+Qed.
+
+(* the compressed flag is bit 16 *)
+Lemma is_compressed_spec sp : is_compressed sp = stream_optimized sp.
+Proof.
+  unfold is_compressed, stream_optimized. change C.vmdk_SPARSEFLAG_COMPRESSED with (2 ^ 16).
+  set (x := sp_flags sp).
+  assert (H : Z.land x (2 ^ 16) = if Z.testbit x 16 then 2 ^ 16 else 0).
+  { apply Z.bits_inj'. intros n Hn. rewrite Z.land_spec, Z.pow2_bits_eqb by lia.
+    destruct (Z.eqb_spec 16 n) as [<-|Hne].
+    - rewrite andb_true_r. destruct (Z.testbit x 16).
+      + rewrite Z.pow2_bits_eqb by lia. reflexivity.
+      + rewrite Z.bits_0. reflexivity.
+    - rewrite andb_false_r. destruct (Z.testbit x 16).
+      + rewrite Z.pow2_bits_eqb by lia. symmetry. apply Z.eqb_neq. exact Hne.
+      + rewrite Z.bits_0. reflexivity. }
+  rewrite H. destruct (Z.testbit x 16); reflexivity.
+Qed.
+
+(* ====================================================================== *)
+(* The concrete lookup against the format-level grain state.              *)
+(* ====================================================================== *)
+Definition wf_words (f : vfile) : Prop :=
+  (forall o, 0 <= f_u32 f o) /\ (forall o, u64 (f_u64 f o)).
+
+Definition wf_geom (sp : sparse) : Prop :=
+  0 < sp_grain_size sp /\
+  (sp_se sp = true -> 2 <= sp_grains_off sp /\ (sp_gt_size sp * 8) mod 512 = 0).
+
+Definition code_of_state (st : gstate) (v : Z) : Prop :=
+  match st with
+  | GAbsent => v = 0
+  | GZero => v = 1
+  | GData s => v = s /\ 2 <= s
+  | GBad => False
+  end.
+
+Lemma Ok_inj {A} (a b : A) : Ok a = Ok b -> a = b.
+Proof. congruence. Qed.
+
+Lemma table_at_ok f sp sector t : table_at f sp sector = Ok t -> t = Some (sector * 512).
+Proof.
+  unfold table_at. destruct (array_in_file f (entry_width sp) sector (sp_gt_size sp)); [|discriminate].
+  intros [= <-]. reflexivity.
+Qed.
+
+Lemma lookup_grain_state f sp g v :
+  wf_words f -> wf_geom sp -> lookup_grain f sp g = Ok v -> code_of_state (grain_state f sp g) v.
+Proof.
+  intros [H32 H64] [Hgs Hse] Hrun. unfold lookup_grain in Hrun.
+  destruct (Z.eqb_spec (sp_gt_size sp) 0) as [|Hgt]; [discriminate|].
+  apply bind_ok in Hrun. destruct Hrun as (t & Ht & Hrun).
+  unfold lookup_grain_table in Ht. unfold grain_state.
+  set (dir := g / sp_gt_size sp) in *. set (idx := g mod sp_gt_size sp) in *.
+  destruct (gd_entry f sp dir) as [e|] eqn:Hgd; [|discriminate].
+  assert (He : e = rd f sp (sp_gd_off sp * SECTOR + entry_width sp * dir)).
+  { unfold gd_entry in Hgd. destruct ((0 <=? dir) && (dir <? sp_gd_size sp)); [|discriminate].
+    injection Hgd as <-. reflexivity. }
+  unfold rd, entry_width in *.
+  destruct (sp_se sp) eqn:Hkind.
+  - (* SE-sparse *)
+    destruct (Hse eq_refl) as [Hgo Hdiv].
+    assert (Hu : u64 e) by (rewrite He; apply H64).
+    destruct (gde_check_spec e Hu) as [Hchk Hidx].
+    unfold se_gde_table. rewrite Hchk in Ht.
+    destruct ((e =? 0) || negb (e / 2 ^ 32 =? 2 ^ 28)) eqn:Habs.
+    + injection Ht as <-. apply Ok_inj in Hrun; subst v.
+      destruct (Z.eqb_spec (e / 2 ^ 32) (2 ^ 28)) as [Heq|Hne]; [|reflexivity].
+      apply orb_true_iff in Habs. destruct Habs as [Hz|Hn]; [|discriminate].
+      apply Z.eqb_eq in Hz. subst e. discriminate.
+    + apply orb_false_iff in Habs. destruct Habs as [_ Hn]. apply negb_false_iff in Hn. rewrite Hn.
+      apply table_at_ok in Ht. subst t. rewrite Hidx in Hrun.
+      set (i := e mod 2 ^ 32) in *.
+      (* the table address: sectors in the code, bytes in the specification *)
+      assert (Haddr : (sp_gts_off sp + i * (sp_gt_size sp * 8) / SECTOR) * 512 + 8 * idx =
+                      sp_gts_off sp * 512 + i * (sp_gt_size sp * 8) + 8 * idx).
+      { rewrite SECTOR_eq. apply Z.div_exact in Hdiv; [|lia].
+        set (q := sp_gt_size sp * 8 / 512) in *. rewrite Hdiv.
+        replace (i * (512 * q)) with (i * q * 512) by lia. rewrite Z.div_mul by lia. lia. }
+      rewrite Haddr in Hrun.
+      set (ge := f_u64 f (sp_gts_off sp * 512 + i * (sp_gt_size sp * 8) + 8 * idx)) in *.
+      assert (Hge : u64 ge) by apply H64.
+      destruct (gte_type_mask ge Hge) as [Hty Hk]. rewrite Hty in Hrun.
+      unfold se_gte_state. set (k := ge / 2 ^ 60) in *.
+      unfold C.vmdk_SESPARSE_GRAIN_TYPE_UNALLOCATED, C.vmdk_SESPARSE_GRAIN_TYPE_FALLTHROUGH,
+        C.vmdk_SESPARSE_GRAIN_TYPE_ZERO, C.vmdk_SESPARSE_GRAIN_TYPE_ALLOCATED in Hrun.
+      change (2 ^ 60) with 1152921504606846976 in Hrun.
+      destruct (Z.leb_spec k 1) as [Hk1|Hk1].
+      { assert (Hc : (k * 1152921504606846976 =? 0) || (k * 1152921504606846976 =? 1152921504606846976) = true).
+        { apply orb_true_iff. assert (k = 0 \/ k = 1) as [->| ->] by lia; [left|right]; reflexivity. }
+        rewrite Hc in Hrun. apply Ok_inj in Hrun; subst v. reflexivity. }
+      assert (Hc : (k * 1152921504606846976 =? 0) || (k * 1152921504606846976 =? 1152921504606846976) = false).
+      { apply orb_false_iff. split; apply Z.eqb_neq; lia. }
+      rewrite Hc in Hrun.
+      destruct (Z.eqb_spec k 2) as [->|Hk2].
+      { change (2 * 1152921504606846976 =? 2305843009213693952) with true in Hrun. cbv iota in Hrun.
+        apply Ok_inj in Hrun; subst v. reflexivity. }
+      destruct (Z.eqb_spec k 3) as [->|Hk3].
+      { change (3 * 1152921504606846976 =? 2305843009213693952) with false in Hrun.
+        change (3 * 1152921504606846976 =? 3458764513820540928) with true in Hrun. cbv iota in Hrun.
+        apply Ok_inj in Hrun; subst v. rewrite se_cluster_spec by (destruct Hge; lia).
+        split; [reflexivity|].
+        assert (Ha : 0 <= (ge / 2 ^ 48) mod 2 ^ 12) by (apply Z.mod_pos_bound; lia).
+        assert (Hb : 0 <= ge mod 2 ^ 48) by (apply Z.mod_pos_bound; lia).
+        set (a := (ge / 2 ^ 48) mod 2 ^ 12) in *. set (b := ge mod 2 ^ 48) in *.
+        assert (Hab : 0 <= a + b * 2 ^ 12) by (apply Z.add_nonneg_nonneg; [exact Ha|apply Z.mul_nonneg_nonneg; lia]).
+        assert (Hm : 0 <= (a + b * 2 ^ 12) * sp_grain_size sp) by (apply Z.mul_nonneg_nonneg; lia).
+        lia. }
+      destruct (Z.eqb_spec (k * 1152921504606846976) 2305843009213693952) as [|_]; [lia|].
+      destruct (Z.eqb_spec (k * 1152921504606846976) 3458764513820540928) as [|_]; [lia|]. discriminate.
+  - (* hosted sparse / COWD *)
+    assert (He0 : 0 <= e) by (rewrite He; apply H32).
+    destruct (Z.eqb_spec e 0) as [->|Hne].
+    + injection Ht as <-. apply Ok_inj in Hrun; subst v. reflexivity.
+    + apply table_at_ok in Ht. subst t. apply Ok_inj in Hrun; subst v.
+      unfold hosted_gte_state.
+      set (ge := f_u32 f (e * 512 + 4 * idx)). pose proof (H32 (e * 512 + 4 * idx)) as Hge. fold ge in Hge.
+      destruct (Z.eqb_spec ge 0) as [->|H0]; [reflexivity|].
+      destruct (Z.eqb_spec ge 1) as [->|H1]; [reflexivity|]. split; [reflexivity|lia].
+Qed.
+
+Lemma lookup_grain_nn f sp g v : wf_words f -> wf_geom sp -> lookup_grain f sp g = Ok v -> 0 <= v.
+Proof.
+  intros Hw Hg Hrun. pose proof (lookup_grain_state f sp g v Hw Hg Hrun) as H.
+  destruct (grain_state f sp g); cbn in H; [lia|lia|lia|contradiction].
+Qed.
+
+Lemma lookup_grain_nf f sp g : lookup_grain f sp g <> Fuel.
+Proof.
+  unfold lookup_grain. destruct (sp_gt_size sp =? 0); [discriminate|].
+  assert (Ht : forall s, table_at f sp s <> Fuel).
+  { intros s. unfold table_at. destruct (array_in_file f (entry_width sp) s (sp_gt_size sp)); discriminate. }
+  assert (Hl : lookup_grain_table f sp (g / sp_gt_size sp) <> Fuel).
+  { unfold lookup_grain_table. destruct (gd_entry f sp (g / sp_gt_size sp)); [|discriminate].
+    destruct (sp_se sp).
+    - destruct ((z =? 0) || negb (Z.land z T.vmdk_gde_check_mask =? T.vmdk_gde_check_value)); [discriminate|apply Ht].
+    - destruct (z =? 0); [discriminate|apply Ht]. }
+  destruct (lookup_grain_table f sp (g / sp_gt_size sp)) as [[b|]| |]; cbn [bind]; try discriminate; try congruence.
+  destruct (sp_se sp); [|discriminate].
+  set (ty := Z.land (rd f sp (b + entry_width sp * (g mod sp_gt_size sp))) C.vmdk_SESPARSE_GRAIN_TYPE_MASK).
+  destruct ((ty =? C.vmdk_SESPARSE_GRAIN_TYPE_UNALLOCATED) || (ty =? C.vmdk_SESPARSE_GRAIN_TYPE_FALLTHROUGH));
+    [discriminate|].
+  destruct (ty =? C.vmdk_SESPARSE_GRAIN_TYPE_ZERO); [discriminate|].
+  destruct (ty =? C.vmdk_SESPARSE_GRAIN_TYPE_ALLOCATED); discriminate.
+Qed.
+
+Section Sparse.
+  Variables (f : vfile) (sp : sparse) (soff : Z) (hp : bool).
+  Hypothesis Hw : wf_words f.
+  Hypothesis Hg : wf_geom sp.
+
+  Let gs := sp_grain_size sp.
+
+  Lemma lookup_hlook rs v k :
+    0 <= rs -> lookup_grain f sp (rs / gs) = Ok v -> 0 <= k -> (rs mod gs) * 512 + k < gs * 512 ->
+    guest_src f sp soff hp (rs * 512 + k) =
+    code_src soff (is_compressed sp) hp v (rs * 512 + k) ((rs mod gs) * 512 + k).
+  Proof.
+    intros Hrs Hlook Hk Hfit. destruct Hg as [Hgs _]. fold gs in Hgs.
+    pose proof (Z.mod_pos_bound rs gs Hgs) as Hm.
+    destruct (byte_block rs gs 512 k (gs - rs mod gs) Hgs ltac:(lia) Hrs ltac:(lia) ltac:(lia)) as [Hq Hr].
+    unfold guest_src. fold gs. rewrite (div_div_mul _ gs 512) by lia. rewrite Hq, Hr.
+    pose proof (lookup_grain_state f sp (rs / gs) v Hw Hg Hlook) as Hst.
+    rewrite <- is_compressed_spec. unfold code_src.
+    destruct (grain_state f sp (rs / gs)) as [| |s|]; cbn in Hst.
+    - subst v. reflexivity.
+    - subst v. reflexivity.
+    - destruct Hst as [-> Hs2].
+      destruct (Z.eqb_spec s 0); [lia|]. destruct (Z.eqb_spec s 1); [lia|]. reflexivity.
+    - contradiction.
+  Qed.
+
+  (* C02, sector interface of a sparse extent: whatever the tables hold, a successful read is
+     exactly the guest bytes of the requested sectors *)
+  Theorem sparse_read_sectors_correct fuel sector count p :
+    soff <= sector ->
+    sparse_read_sectors f sp soff hp fuel sector count = Ok p ->
+    srcs_of p = map (guest_src f sp soff hp) (zseq ((sector - soff) * 512) (count * 512)).
+  Proof.
+    intros Hs Hrun. destruct Hg as [Hgs _].
+    apply (read_sectors_gen_correct (sp_grain_size sp) soff (lookup_grain f sp) (is_compressed sp) hp Hgs
+             (guest_src f sp soff hp) lookup_hlook
+             (fun g v H => lookup_grain_nn f sp g v Hw Hg H) fuel sector count p Hs Hrun).
+  Qed.
+
+  (* the coalescer alone: the runs tile the request; every byte of a run is the guest byte, so a run of
+     merged grains is physically consecutive (one file read = the per-grain reads) *)
+  Theorem sparse_get_runs_sound fuel sector count runs :
+    soff <= sector ->
+    sparse_get_runs f sp soff fuel sector count = Ok runs ->
+    runs_srcs (sp_grain_size sp) (is_compressed sp) hp runs =
+      map (guest_src f sp soff hp) (zseq ((sector - soff) * 512) (count * 512)).
+  Proof.
+    intros Hs Hrun. destruct Hg as [Hgs _].
+    apply (get_runs_sound (sp_grain_size sp) soff (lookup_grain f sp) (is_compressed sp) hp Hgs
+             (guest_src f sp soff hp) lookup_hlook
+             (fun g v H => lookup_grain_nn f sp g v Hw Hg H) fuel sector count runs Hs Hrun).
+  Qed.
+
+  Theorem sparse_read_sectors_fuel fuel sector count :
+    soff <= sector -> count < Z.of_nat fuel ->
+    sparse_read_sectors f sp soff hp fuel sector count <> Fuel.
+  Proof.
+    intros Hs Hf. destruct Hg as [Hgs _].
+    apply (read_sectors_gen_fuel (sp_grain_size sp) soff (lookup_grain f sp) (is_compressed sp) hp Hgs
+             (guest_src f sp soff hp) lookup_hlook
+             (fun g v H => lookup_grain_nn f sp g v Hw Hg H) (lookup_grain_nf f sp) fuel sector count Hs Hf).
+  Qed.
+End Sparse.
